@@ -324,7 +324,7 @@ func (vc *VC) zeroInit(st *State, ref Term, t types.Type) {
 func (vc *VC) zeroSpec(s Sort) Term {
 	if strings.HasPrefix(s, "(Array ") {
 		parts := arraySorts(s)
-		return fmt.Sprintf("((as const %s) %s)", s, vc.zeroSpec(parts[1]))
+		return vc.d.constArray(parts[0], parts[1], vc.zeroSpec(parts[1]))
 	}
 	return zeroOf(s, vc.d)
 }
@@ -341,7 +341,11 @@ func (vc *VC) oblige(st *State, goal Term, label, kind, site string, props []str
 	assumptions := append(vc.typeFacts(), st.assume...)
 	comment := fmt.Sprintf("obligation %s/[%s] kind=%s site=%s path=%s\nclause: %s", shortFuncKey(vc.key), label, kind, site, pathString(st.path), clause)
 	sc := vc.d.script(assumptions, goal, comment)
-	vc.obls = append(vc.obls, &Obligation{Func: vc.key, Label: label, Kind: kind, Site: site, Props: props, Path: pathString(st.path), Script: sc, Clause: clause, Callee: callee})
+	ob := &Obligation{Func: vc.key, Label: label, Kind: kind, Site: site, Props: props, Path: pathString(st.path), Script: sc, Clause: clause, Callee: callee, Probes: vc.probes}
+	if vc.effective != nil {
+		ob.Replay = vc.effective.Replay
+	}
+	vc.obls = append(vc.obls, ob)
 }
 
 func (vc *VC) cover(st *State, label, site string, props []string) {
@@ -1017,7 +1021,7 @@ func (vc *VC) execInstr(st *State, ins ssa.Instruction) {
 		case *types.Array:
 			es := sortOf(u.Elem())
 			arr := vc.hget(st.heap, elemsArr(es), elemsSort(es))
-			vc.setHeap(st, elemsArr(es), elemsSort(es), app("store", arr, a, fmt.Sprintf("((as const (Array Int %s)) %s)", es, zeroOf(es, vc.d))))
+			vc.setHeap(st, elemsArr(es), elemsSort(es), app("store", arr, a, vc.d.constArray("Int", es, zeroOf(es, vc.d))))
 		default:
 			s := sortOf(et)
 			if s != "Real" {
@@ -1122,7 +1126,7 @@ func (vc *VC) execInstr(st *State, ins ssa.Instruction) {
 		es := sortOf(x.Type().Underlying().(*types.Slice).Elem())
 		arr := vc.hget(st.heap, elemsArr(es), elemsSort(es))
 		vc.safety(st, app(">=", n, "0"), "makeslice-len", x)
-		vc.setHeap(st, elemsArr(es), elemsSort(es), app("store", arr, a, fmt.Sprintf("((as const (Array Int %s)) %s)", es, zeroOf(es, vc.d))))
+		vc.setHeap(st, elemsArr(es), elemsSort(es), app("store", arr, a, vc.d.constArray("Int", es, zeroOf(es, vc.d))))
 		st.vals[x] = Val{T: app("mk_slice", a, "0", n), Typ: x.Type()}
 	case *ssa.MakeMap:
 		a := vc.alloc(st, "map")
